@@ -5,7 +5,7 @@
     an explicit [Err (Panic site)] and every loop runs on explicit fuel ([Err OutOfFuel]).
     The theorems say that no input and no settings value ever produces an [Err]. *)
 Require Import SB.Model.Base SB.Model.Merge SB.Model.Text SB.Model.Svg SB.Model.Lib
-  SB.Theory.MergeTheory SB.Theory.TextTotal SB.Theory.EndorseTotal SB.Theory.Total.
+  SB.Theory.MergeTheory SB.Theory.TextTotal SB.Theory.EndorseTotal SB.Theory.Total SB.Theory.Cost.
 From Coq Require Import QArith String.
 From Coq Require Import List.
 Import ListNotations.
@@ -48,6 +48,19 @@ Qed.
 Check C01_merge_loop_terminates :
   forall (A : Type) (merge : A -> A -> option A) (items : list A),
     exists r, merge_recursive merge items = Ok r /\ (length r <= length items)%nat.
+
+(** ... and the number of applications of [merge] is polynomial: counting them along the very
+    definitions of the loop ([merge_rec_c] returns the loop's result together with the count),
+    a list of [n] items costs at most [(n + 1) * n^2] applications, for every [merge] function *)
+Theorem C01_merge_loop_cost :
+  forall (A : Type) (merge : A -> A -> option A) (items : list A),
+    fst (merge_rec_c merge (S (length items)) items) = merge_rec merge (S (length items)) items
+    /\ (snd (merge_rec_c merge (S (length items)) items) <= S (length items) * (length items * length items))%nat.
+Proof. intros A merge items. exact (merge_recursive_cost merge items). Qed.
+Check C01_merge_loop_cost :
+  forall (A : Type) (merge : A -> A -> option A) (items : list A),
+    fst (merge_rec_c merge (S (length items)) items) = merge_rec merge (S (length items)) items
+    /\ (snd (merge_rec_c merge (S (length items)) items) <= S (length items) * (length items * length items))%nat.
 
 (** the quoted-segment parser returns positions that make every slice of [escape_line] legal *)
 Theorem C01_escape_positions_in_range :
